@@ -545,10 +545,19 @@ func (e *renv) statesV1(ep *ibctesting.Endpoint, seq uint64, recv bool) []stateV
 	if !recv {
 		nsKey = host.NextSequenceAckKey(ep.ChannelConfig.PortID, ep.ChannelID)
 	}
-	if orig := c.GetContext().KVStore(ibcKey(c)).Get(nsKey); orig != nil && origCh.Ordering == channeltypes.ORDERED {
+	if origCh.Ordering == channeltypes.ORDERED {
+		var saved []byte // read when the variation is applied: earlier attempts of the phase may have moved the counter
 		vs = append(vs, stateVar{"nextseq-missing",
-			func() { c.GetContext().KVStore(ibcKey(c)).Delete(nsKey) },
-			func() { c.GetContext().KVStore(ibcKey(c)).Set(nsKey, orig) }})
+			func() {
+				st := c.GetContext().KVStore(ibcKey(c))
+				saved = st.Get(nsKey)
+				st.Delete(nsKey)
+			},
+			func() {
+				if saved != nil {
+					c.GetContext().KVStore(ibcKey(c)).Set(nsKey, saved)
+				}
+			}})
 	}
 	_ = k
 	_ = exported.Active
